@@ -4,6 +4,8 @@
 ID=$1; WT=/tmp/mut/$ID; [ -n "$2" ] && WT=/tmp/mut/$2
 cd $WT || exit 1
 [ -s patch.diff ] || { echo "no patch.diff"; exit 1; }
+# start from a clean library tree and apply exactly patch.diff (agents share the git stash, worktrees may hold foreign edits)
+git checkout -q -- src Cargo.toml; git clean -fdq src; git apply patch.diff || { echo "patch.diff does not apply to a clean tree"; exit 1; }
 DEMO=$(cat DEMO_CMD.txt | grep -E "cargo test" | head -1 | sed 's/^.*cargo test/cargo test/' | sed 's/`.*$//')
 echo "demo cmd: $DEMO"
 echo "--- build (both feature settings)"
